@@ -44,7 +44,7 @@ func init() {
 		Batch:  500,
 		Init:   per.SelfTest,
 		Run:    runC14,
-		Stall:  30 * time.Second,
+		Stall:  90 * time.Second, // a case is thousands of decodes; on a loaded machine 30 s are not enough
 		Finish: c14FuzzStage,
 	})
 }
